@@ -486,6 +486,27 @@ pub(crate) fn channel_world() -> World {
     w
 }
 
+/// Concrete shape, symbolic scalars (DESIGN.md 8.1: a symbolic *shape* of the broker state does not
+/// finish): connections 0 and 1 (arbitrary versions, each peer possibly gone), channel 30 with the
+/// given end states (capacities symbolic, constrained by the `Channel` invariant only).
+pub(crate) fn channel_world_shape(sd: chv::EndSpec, rc: chv::EndSpec) -> World {
+    let mut w = new_world();
+    add_conn(&mut w, 0);
+    add_conn(&mut w, 1);
+    let ch = chv::mk_channel(sd, rc);
+    if let chv::EndSpec::C(o) = sd {
+        csv::senders_mut(w.b.conns.get_mut(&conn(o)).unwrap()).insert(chan_cookie(30));
+    }
+    if let chv::EndSpec::C(o) = rc {
+        csv::receivers_mut(w.b.conns.get_mut(&conn(o)).unwrap()).insert(chan_cookie(30));
+    }
+    w.b.channels.insert(chan_cookie(30), ch);
+    let f: u8 = kani::any();
+    kani::assume(f != 30);
+    set_fresh(f);
+    w
+}
+
 /// channel map and the per-connection end sets agree, and every stored channel satisfies `Inv`
 pub(crate) fn inv_chan(b: &Broker) -> bool {
     let mut ok = true;
@@ -536,13 +557,10 @@ fn count_kind_to(to: u8, kind: K, pred: impl Fn(&LogEntry) -> bool) -> usize {
 mod chan_handlers {
     use super::*;
 
-    #[kani::proof]
-    #[kani::unwind(18)]
-    fn q_c05_c11_send_item() {
-        let mut w = channel_world();
+    fn send_item_lemma(sd: chv::EndSpec, rc: chv::EndSpec, who: u8, known: bool) {
+        let mut w = channel_world_shape(sd, rc);
+        let cookie = if known { chan_cookie(30) } else { chan_cookie(31) };
         assert!(inv_chan(&w.b));
-        let who = any_conn_tag();
-        let cookie = if kani::any() { chan_cookie(30) } else { chan_cookie(31) };
         let pre = if cookie == chan_cookie(30) { chan_ends(&w) } else { None };
         let fails_who = send_fails(who);
         let value = aldrin_core::SerializedValue::serialize(7u8).unwrap();
@@ -587,17 +605,12 @@ mod chan_handlers {
             }
         }
         assert!(inv_chan(&w.b), "channel bookkeeping stays consistent");
-        kani::cover!(pre.is_some() && count_kind_to(0, K::ItemReceived, |_| true) == 1);
-        kani::cover!(pre.is_some() && count_kind_to(who, K::AddChannelCapacity, |e| e.cookie == 30) == 1);
         std::mem::forget(w);
     }
 
-    #[kani::proof]
-    #[kani::unwind(18)]
-    fn q_c05_c11_add_channel_capacity() {
-        let mut w = channel_world();
-        let who = any_conn_tag();
-        let cookie = if kani::any() { chan_cookie(30) } else { chan_cookie(31) };
+    fn add_channel_capacity_lemma(sd: chv::EndSpec, rc: chv::EndSpec, who: u8, known: bool) {
+        let mut w = channel_world_shape(sd, rc);
+        let cookie = if known { chan_cookie(30) } else { chan_cookie(31) };
         let capacity: u32 = kani::any();
         let pre = if cookie == chan_cookie(30) { chan_ends(&w) } else { None };
         w.b.add_channel_capacity(&mut w.st, &conn(who), AddChannelCapacity { cookie, capacity });
@@ -645,16 +658,13 @@ mod chan_handlers {
         std::mem::forget(w);
     }
 
-    #[kani::proof]
-    #[kani::unwind(18)]
-    fn q_c05_c11_claim_channel_end() {
-        let mut w = channel_world();
-        let who = any_conn_tag();
+    fn claim_channel_end_lemma(sd: chv::EndSpec, rc: chv::EndSpec, who: u8, known: bool, as_sender: bool) {
+        let mut w = channel_world_shape(sd, rc);
+        let cookie = if known { chan_cookie(30) } else { chan_cookie(31) };
         set_send_fails(who, false);
-        let cookie = if kani::any() { chan_cookie(30) } else { chan_cookie(31) };
         let serial: u32 = kani::any();
         let cap: u32 = kani::any();
-        let end = if kani::any() { ChannelEndWithCapacity::Sender } else { ChannelEndWithCapacity::Receiver(cap) };
+        let end = if as_sender { ChannelEndWithCapacity::Sender } else { ChannelEndWithCapacity::Receiver(cap) };
         let pre = if cookie == chan_cookie(30) { chan_ends(&w) } else { None };
         let r = w.b.claim_channel_end(&mut w.st, &conn(who), ClaimChannelEnd { serial, cookie, end });
         assert!(r.is_ok());
@@ -694,15 +704,12 @@ mod chan_handlers {
         std::mem::forget(w);
     }
 
-    #[kani::proof]
-    #[kani::unwind(18)]
-    fn q_c05_c11_close_channel_end() {
-        let mut w = channel_world();
-        let who = any_conn_tag();
+    fn close_channel_end_lemma(sd: chv::EndSpec, rc: chv::EndSpec, who: u8, known: bool, as_sender: bool) {
+        let mut w = channel_world_shape(sd, rc);
+        let cookie = if known { chan_cookie(30) } else { chan_cookie(31) };
         set_send_fails(who, false);
-        let cookie = if kani::any() { chan_cookie(30) } else { chan_cookie(31) };
         let serial: u32 = kani::any();
-        let end = chv::any_end();
+        let end = if as_sender { ChannelEnd::Sender } else { ChannelEnd::Receiver };
         let pre = if cookie == chan_cookie(30) { chan_ends(&w) } else { None };
         let r = w.b.close_channel_end(&mut w.st, &conn(who), CloseChannelEnd { serial, cookie, end });
         assert!(r.is_ok());
@@ -746,12 +753,12 @@ mod chan_handlers {
     #[kani::unwind(18)]
     #[kani::stub(aldrin_core::ChannelCookie::new_v4, fresh_chan_cookie)]
     fn q_c05_c11_create_channel() {
-        let mut w = channel_world();
-        let who = any_conn_tag();
+        // one other channel already exists
+        let mut w = channel_world_shape(chv::EndSpec::C(0), chv::EndSpec::C(1));
+        let who = 1;
         let serial: u32 = kani::any();
         let cap: u32 = kani::any();
         let end = if kani::any() { ChannelEndWithCapacity::Sender } else { ChannelEndWithCapacity::Receiver(cap) };
-        kani::assume(w.b.channels.len() < 2);
         let r = w.b.create_channel(&conn(who), CreateChannel { serial, end });
         if send_fails(who) {
             assert!(r.is_err());
@@ -767,6 +774,87 @@ mod chan_handlers {
         }
         assert!(inv_chan(&w.b));
         std::mem::forget(w);
+    }
+
+    use chv::EndSpec::{C, U, X};
+
+    macro_rules! inst {
+        ($($name:ident = $lemma:ident($($arg:expr),*) $(=> $cov:expr)?;)*) => {$(
+            #[kani::proof]
+            #[kani::unwind(18)]
+            fn $name() {
+                $lemma($($arg),*);
+                // vacuity witnesses: the end is reached, and (where given) the interesting outcome
+                kani::cover!(true);
+                $(kani::cover!($cov);)?
+            }
+        )*};
+    }
+    macro_rules! inst_t {
+        ($($name:ident = $lemma:ident($($arg:expr),*) $(=> $cov:expr)?;)*) => {$(
+            #[cfg(any(verif_unit = "all", verif_unit = "chan_handlers_t"))]
+            #[kani::proof]
+            #[kani::unwind(18)]
+            fn $name() {
+                $lemma($($arg),*);
+                kani::cover!(true);
+                $(kani::cover!($cov);)?
+            }
+        )*};
+    }
+
+    // q_ = quick and thorough tier, t_ = thorough tier only (unit chan_handlers_t). Shapes: sender
+    // end, receiver end (U unclaimed, C(owner) claimed, X closed), who sends the request, whether the
+    // cookie names the channel (, which end is meant).
+    inst! {
+        q_c05_c11_send_item_cc01_by_sender = send_item_lemma(C(0), C(1), 0, true)
+            => count_kind_to(1, K::ItemReceived, |_| true) == 1 && count_kind_to(0, K::AddChannelCapacity, |e| e.cookie == 30) == 1;
+        q_c05_c11_send_item_cc01_by_receiver = send_item_lemma(C(0), C(1), 1, true);
+        q_c05_c11_send_item_cu_by_sender = send_item_lemma(C(0), U, 0, true);
+        q_c05_c11_send_item_cx_by_sender = send_item_lemma(C(0), X, 0, true);
+        q_c05_c11_send_item_unknown_cookie = send_item_lemma(C(0), C(1), 0, false);
+        q_c05_c11_add_capacity_cc01_by_receiver = add_channel_capacity_lemma(C(0), C(1), 1, true)
+            => count_kind_to(0, K::AddChannelCapacity, |e| e.cookie == 30) == 1;
+        q_c05_c11_add_capacity_cc01_by_sender = add_channel_capacity_lemma(C(0), C(1), 0, true);
+        q_c05_c11_add_capacity_uc_by_receiver = add_channel_capacity_lemma(U, C(1), 1, true);
+        q_c05_c11_add_capacity_xc_by_receiver = add_channel_capacity_lemma(X, C(1), 1, true);
+        q_c05_c11_add_capacity_unknown_cookie = add_channel_capacity_lemma(C(0), C(1), 1, false);
+        q_c05_c11_claim_receiver_cu_by_other = claim_channel_end_lemma(C(0), U, 1, true, false)
+            => count_kind_to(0, K::ChannelEndClaimed, |e| e.cookie == 30) == 1;
+        q_c05_c11_claim_sender_uc_by_other = claim_channel_end_lemma(U, C(1), 0, true, true);
+        q_c05_c11_claim_sender_cc01_again = claim_channel_end_lemma(C(0), C(1), 1, true, true);
+        q_c05_c11_claim_receiver_cx_closed = claim_channel_end_lemma(C(0), X, 1, true, false);
+        q_c05_c11_claim_unknown_cookie = claim_channel_end_lemma(C(0), U, 1, false, false);
+        q_c05_c11_close_sender_cc01_by_owner = close_channel_end_lemma(C(0), C(1), 0, true, true)
+            => count_kind_to(1, K::ChannelEndClosed, |e| e.cookie == 30) == 1;
+        q_c05_c11_close_receiver_cc01_by_owner = close_channel_end_lemma(C(0), C(1), 1, true, false);
+        q_c05_c11_close_sender_cc01_by_other = close_channel_end_lemma(C(0), C(1), 1, true, true);
+        q_c05_c11_close_receiver_cu_unclaimed = close_channel_end_lemma(C(0), U, 1, true, false);
+        q_c05_c11_close_sender_cx_last_end = close_channel_end_lemma(C(0), X, 0, true, true);
+        q_c05_c11_close_unknown_cookie = close_channel_end_lemma(C(0), C(1), 0, false, true);
+    }
+    inst_t! {
+        t_c05_c11_send_item_cc00_by_owner = send_item_lemma(C(0), C(0), 0, true);
+        t_c05_c11_send_item_cc00_by_other = send_item_lemma(C(0), C(0), 1, true);
+        t_c05_c11_send_item_uc_by_receiver = send_item_lemma(U, C(1), 1, true);
+        t_c05_c11_send_item_xc_by_receiver = send_item_lemma(X, C(1), 1, true);
+        t_c05_c11_send_item_cu_by_other = send_item_lemma(C(0), U, 1, true);
+        t_c05_c11_add_capacity_cc00_by_owner = add_channel_capacity_lemma(C(0), C(0), 0, true);
+        t_c05_c11_add_capacity_cc00_by_other = add_channel_capacity_lemma(C(0), C(0), 1, true);
+        t_c05_c11_add_capacity_cu_by_sender = add_channel_capacity_lemma(C(0), U, 0, true);
+        t_c05_c11_add_capacity_cx_by_sender = add_channel_capacity_lemma(C(0), X, 0, true);
+        t_c05_c11_add_capacity_uc_by_other = add_channel_capacity_lemma(U, C(1), 0, true);
+        t_c05_c11_claim_receiver_cu_by_same = claim_channel_end_lemma(C(0), U, 0, true, false);
+        t_c05_c11_claim_sender_uc_by_same = claim_channel_end_lemma(U, C(1), 1, true, true);
+        t_c05_c11_claim_receiver_cc01_again = claim_channel_end_lemma(C(0), C(1), 0, true, false);
+        t_c05_c11_claim_sender_xc_closed = claim_channel_end_lemma(X, C(1), 0, true, true);
+        t_c05_c11_claim_sender_cu_again = claim_channel_end_lemma(C(0), U, 1, true, true);
+        t_c05_c11_close_sender_uc_unclaimed = close_channel_end_lemma(U, C(1), 0, true, true);
+        t_c05_c11_close_receiver_xc_last_end = close_channel_end_lemma(X, C(1), 1, true, false);
+        t_c05_c11_close_receiver_cx_closed = close_channel_end_lemma(C(0), X, 1, true, false);
+        t_c05_c11_close_sender_cc00_by_owner = close_channel_end_lemma(C(0), C(0), 0, true, true);
+        t_c05_c11_close_receiver_cc00_by_other = close_channel_end_lemma(C(0), C(0), 1, true, false);
+        t_c05_c11_close_sender_cu_by_owner = close_channel_end_lemma(C(0), U, 0, true, true);
     }
 
     #[cfg(verif_replay)]
